@@ -14,7 +14,7 @@ any pass ran), following the code line by line:
 * `ASTRewriter` (`astrewriter.py`): `visit_If` (guarded assignments under `_iftarg<hex n>`, the `__x`
   targets whose else-value is `x`, the unguarded copy of `_iftarg…` assignments in an else branch, the
   two exceptions), `visit_For` (`__unroll_arg`, `range`, literal tuples / lists, tuple-typed names,
-  `NameValReplacer` on *every* `Name` – targets included –, the `else` branch that is dropped),
+  `NameValReplacer` on *every* `Name` – targets included –, the `else` suite rewritten after the last iteration),
   `visit_Assign` (the `Environment` updates, `IsNamePresent`, the `__target` temporary),
   `visit_AugAssign`, `visit_AnnAssign`, `visit_Name` (names starting with `__` raise),
   `visit_List`, `visit_BinOp` (`**` by a literal), `visit_Subscript` (only the branch that returns the
@@ -689,7 +689,7 @@ def noteIf (e b' e' : List SStmt) : RM Unit :=
     ++ (if b'.any isGuardAssign then ["if-in-if-body"] else [])
     ++ (if e'.any isGuardAssign then ["if-in-else"] else []))
 
-def noteFor (e : List SStmt) : RM Unit := notes (if !e.isEmpty then ["for-else-dropped"] else [])
+def noteFor (e : List SStmt) : RM Unit := notes (if !e.isEmpty then ["for-else"] else [])
 
 mutual
 /-- `ASTRewriter.visit` on a statement; `θ` = the loop-variable replacements of the enclosing loops -/
@@ -713,7 +713,10 @@ def rwS (θ : Subst) : SStmt → RM (List SStmt)
   | .for_ t it b e => do
     noteFor e
     let vals ← forIter (substE θ it)
-    forLoop (substE θ t) (fun v val => rwSs (θ ++ [(v, val)]) b) vals
+    let rolls ← forLoop (substE θ t) (fun v val => rwSs (θ ++ [(v, val)]) b) vals
+    -- there is no `break`: the else suite always runs after the last iteration (the loop variable is not replaced in it)
+    let tail ← rwSs θ e
+    pure (rolls ++ tail)
   | .other w => throw (.outside s!"statement {w}")
 def rwSs (θ : Subst) : List SStmt → RM (List SStmt)
   | [] => pure []
